@@ -539,6 +539,7 @@ ByteFail(S, e) ==
                   Chk(e.ret.k = "n" /\ e.ret.n = Len(e.vals), pr, "write_count")
              \cup Chk(ps = LastN(seq \o e.vals, cap), pr, "contents")
             [] e.op = "flush" -> Chk(e.ret.k = "ok", pr, "flush") \cup Chk(ps = seq, pr, "contents")
+            [] e.op = "extend_ref" -> Chk(ps = LastN(seq \o e.vals, cap), "C01", "contents")
             [] e.op = "read" ->
                   LET k == Min(e.i, n) IN
                   Chk(e.ret.k = "n" /\ e.ret.n = k, pr, "read_count")
